@@ -206,7 +206,10 @@ def check_global(R, tier, seed):
     if d is None:
         R.inst("R19.2", "witness-build", False, "building the rlib for the witnesses failed:\n" + (err or ""), nontrivial=False)
         return
-    for w in witnesses():
-        ok, det = w.run(d)
+    from concurrent.futures import ThreadPoolExecutor
+    _ws = list(witnesses())
+    with ThreadPoolExecutor(max_workers=8) as _ex:       # independent rustc type-checks
+        _res = list(_ex.map(lambda w_: w_.run(d), _ws))
+    for w, (ok, det) in zip(_ws, _res):
         R.inst("R19.2", "witness:%s" % w.name, ok, "%s: %s" % (w.what, det), cfg="all-features")
     R.floor("R19.2", "all-features", 14, sum(1 for i in R.instances if i["rule"] == "R19.2"))
